@@ -259,6 +259,25 @@ void Exec::connect_step(const Step &s) {
   fdpass_req.resize(w.clients.size(), false);
   fdpass_req[(size_t)ci] = s.N(3, 0) != 0;
   md.connect(ci, cr.uid, (unsigned)cr.pid, cr.groups, false);
+  pol::Who who;
+  who.uid = cr.uid;
+  who.user = cr.uid == 0 ? "root" : "user" + std::to_string(cr.uid);
+  who.gids = cr.groups;
+  for (unsigned g : cr.groups) who.groups.push_back(g == 0 ? "root" : "group" + std::to_string(g));
+  for (auto &u : K->users) if (u.uid == cr.uid) who.at_console = u.at_console;
+  whos.resize(w.clients.size());
+  rules_of.resize(w.clients.size());
+  whos[(size_t)ci] = who;
+  if (have_policy) {
+    rules_of[(size_t)ci] = pol::effective_rules(policy, who);
+    if (!pol::may_connect(policy, who, K->self.uid)) {
+      // not admitted: the bus must drop the connection once it has authenticated, before any message counts
+      md.conns[(size_t)ci].expect_closed = true;
+      md.conns[(size_t)ci].close_prop = "C06";
+      md.conns[(size_t)ci].unchecked = true;
+      counters["probe:connect_denied"]++;
+    }
+  }
   note("connect(c" + std::to_string(ci) + ",uid=" + std::to_string(cr.uid) + ")");
 }
 
@@ -364,7 +383,7 @@ void Exec::step(const Step &s) {
     wire::Msg m;
     m.type = (uint8_t)s.N(0, wire::T_CALL);
     m.flags = (uint8_t)s.N(1, 0);
-    m.serial = c.next_serial++;
+    m.serial = s.N(8, 0) > 0 ? (uint32_t)s.N(8) : c.next_serial++;   // explicit serial: reuse of an outstanding one
     m.big_endian = s.N(6, 0) != 0;
     if (!s.S(1).empty()) m.set_field(wire::F_PATH, wire::Value::path(s.S(1)));
     if (!s.S(2).empty()) m.set_field(wire::F_INTERFACE, wire::Value::string(s.S(2)));
@@ -403,6 +422,7 @@ void Exec::step(const Step &s) {
     }
     wire::ParseResult pr = wire::parse(wire::marshal(m));
     if (pr.status != wire::P_OK) return;   // the generator asked for something invalid: not this workload's business
+    if (m.type == wire::T_CALL) all_calls.push_back({ci, m.serial, resolve_name(s.S(0))});
     send_msg(ci, m, s.N(2, -1));
     note("c" + std::to_string(ci) + ":send(type=" + std::to_string(m.type) + ",dest=" + s.S(0) + "," + s.S(3) + s.S(4) + ")");
     return;
@@ -417,6 +437,17 @@ void Exec::step(const Step &s) {
       if (answered[(size_t)ci].count(i)) done.push_back(i); else open.push_back(i);
     }
     int mode = (int)s.N(1, 0);
+    if (mode == 5) {
+      // answer a call that was addressed to somebody else: a third-party reply
+      std::vector<size_t> cand;
+      for (size_t i = 0; i < all_calls.size(); i++) if (all_calls[i].from != ci && !w.C(all_calls[i].from).unique.empty()) cand.push_back(i);
+      if (cand.empty()) return;
+      const CallRec &cr = all_calls[cand[(size_t)s.N(0, 0) % cand.size()]];
+      wire::Msg m = wire::Msg::method_return(c.next_serial++, cr.serial, w.C(cr.from).unique, {wire::Value::string("tok" + std::to_string(++token))});
+      send_msg(ci, m, s.N(2, -1));
+      note("c" + std::to_string(ci) + ":third-party-reply(rs=" + std::to_string(cr.serial) + ")");
+      return;
+    }
     std::vector<size_t> &pool = (mode == 2 && !done.empty()) ? done : open;
     if (pool.empty()) return;
     size_t gi = pool[(size_t)s.N(0, 0) % pool.size()];
@@ -623,6 +654,17 @@ void Exec::check_point(bool final) {
   w.quiesce();
   resolve_choices();
   if (tainted) { for (auto &c : w.clients) c.got_checked = c.got.size(); return; }
+  // Bounded liveness for reply_timeout: slots overdue now must be expired (NoReply sent) within one
+  // more timeout of simulated time once the system is left alone.
+  if (lim_cfg.reply_timeout >= 0 && !md.overdue().empty()) {
+    w.advance_ms(lim_cfg.reply_timeout + 1);
+    md.now_us = K->now_us;
+    w.quiesce();
+    resolve_choices();
+    for (auto &p : md.pending)
+      if (p.deadline_us >= 0 && p.deadline_us + (lim_cfg.reply_timeout + 1) * 1000 <= K->now_us)
+        fail("oracle:C09:not-expired", "c%d's call %u to c%d is %lld ms past reply_timeout and the bus has not sent NoReply", p.caller, p.serial, p.callee, (long long)((K->now_us - p.deadline_us) / 1000));
+  }
   // Bounded liveness for auth_timeout: a connection overdue now must be gone within one more
   // timeout of simulated time once the system is left alone (the timer may legitimately have been
   // armed late if the loop was not scheduled around the clock jump).
@@ -668,6 +710,16 @@ core::RunResult Exec::run() {
   core::RunResult res;
   try {
     w.on_dispatch = [this](int ci, DBusConnection *conn, DBusMessage *msg) { on_dispatch(ci, conn, msg); };
+    w.on_reply_expired = [this](int caller, int callee, uint32_t serial) {
+      resolve_choices();
+      md.now_us = K->now_us;
+      tr.ev("H2c expired caller=c%d callee=c%d serial=%u", caller, callee, serial);
+      for (auto &p : md.pending)
+        if (p.caller == caller && p.callee == callee && p.serial == serial && p.deadline_us >= 0 && K->now_us < p.deadline_us && md.conns[(size_t)callee].alive)
+          fail("oracle:C09:expired-early", "the reply slot of c%d's call %u to c%d was expired %lld ms before reply_timeout elapsed", caller, serial, callee, (long long)((p.deadline_us - K->now_us) / 1000));
+      md.reply_expired(caller, callee, serial);
+      after_event();
+    };
     setup();
     for (auto &s : plan.steps) {
       tr.ev("step %s %d", s.t.c_str(), s.a);
@@ -686,7 +738,7 @@ core::RunResult Exec::run() {
   res.counters = counters;
   for (auto &kv : w.counters) res.counters[kv.first] += kv.second;
   for (auto &kv : md.probes) res.counters["probe:" + kv.first] += kv.second;
-  for (auto &kv : md.finding_hits) res.counters["finding:" + kv.first] += kv.second;
+  for (auto &kv : md.finding_hits) if (kv.second) res.counters["finding:" + kv.first] += kv.second;
   uint64_t faults = 0;
   for (auto &kv : K->stats.faults) { res.counters["fault:" + kv.first] += kv.second; faults += kv.second; }
   res.counters["sut_bytes_read"] = K->stats.bytes_sut_read;
@@ -720,9 +772,60 @@ void Exec::setup() {
   lim.max_incomplete_connections = plan.C("lim.incomplete", -1);
   lim_cfg = lim;
   for (unsigned u = 1000; u < 1008; u++) { K->add_user("user" + std::to_string(u), u, u); K->add_group("group" + std::to_string(u), u); }
-  std::string policy = plan.CS("policy", bw::kAllowAllPolicy);
+  std::string policy_xml = plan.CS("policy", bw::kAllowAllPolicy);
+  if (!plan.CS("policy.spec").empty()) {
+    if (!pol::decode(plan.CS("policy.spec"), &policy)) core::harness_error("bad policy.spec in plan");
+    have_policy = true;
+    policy_xml = policy.xml();
+    install_policy_hooks();
+  }
+  for (unsigned u = 1000; u < 1008; u++) if (plan.C("console." + std::to_string(u), 0)) for (auto &usr : K->users) if (usr.uid == u) usr.at_console = true;
   K->sut_read_limit = (int)plan.C("knob.read_limit", 0);
-  w.start_bus(bw::make_bus_config(policy, lim), (int)plan.C("uniq.major", 0), (int)plan.C("uniq.minor", 0));
+  w.start_bus(bw::make_bus_config(policy_xml, lim), (int)plan.C("uniq.major", 0), (int)plan.C("uniq.minor", 0));
+}
+
+std::vector<std::string> Exec::names_of(int c) {
+  std::vector<std::string> v;
+  if (c < 0) { v.push_back(bm::BUS); return v; }
+  for (auto &kv : md.names)
+    for (auto &q : kv.second)
+      if (q.c == c) v.push_back(kv.first);
+  std::string u = md.resolve(bm::U(c));
+  if (!u.empty() && u[0] == ':') v.push_back(u);
+  return v;
+}
+
+void Exec::install_policy_hooks() {
+  md.can_send = [this](int sender, const wire::Msg &m, int recipient, int addressed, bool requested) {
+    pol::MsgFacts f;
+    f.m = &m;
+    f.nfds = m.unix_fds();
+    f.requested_reply = requested;
+    f.eavesdropping = recipient >= 0 && addressed != recipient && m.has_field(wire::F_DESTINATION);
+    f.peer_names = names_of(recipient);
+    pol::Opts o;
+    o.send_eavesdrop_ignored = md.known.count("C06-send-rule-eavesdrop-ignored") != 0;
+    o.hits = &md.finding_hits["C06-send-rule-eavesdrop-ignored"];
+    bool ok = pol::may_send(rules_of[(size_t)sender], f, o);
+    counters[ok ? "policy_send_allowed" : "policy_send_denied"]++;
+    return ok;
+  };
+  md.can_receive = [this](int sender, const wire::Msg &m, int recipient, int addressed, bool requested) {
+    pol::MsgFacts f;
+    f.m = &m;
+    f.nfds = m.unix_fds();
+    f.requested_reply = requested;
+    f.eavesdropping = addressed != recipient && m.has_field(wire::F_DESTINATION);
+    f.peer_names = names_of(sender);
+    bool ok = pol::may_receive(rules_of[(size_t)recipient], f);
+    counters[ok ? "policy_receive_allowed" : "policy_receive_denied"]++;
+    return ok;
+  };
+  md.can_own = [this](int c, const std::string &name) {
+    bool ok = pol::may_own(rules_of[(size_t)c], name);
+    counters[ok ? "policy_own_allowed" : "policy_own_denied"]++;
+    return ok;
+  };
 }
 
 void Exec::finish() {}
